@@ -16,6 +16,7 @@ import (
 	"sort"
 	"sync"
 
+	"github.com/youzan/ZanRedisDB/raft"
 	"github.com/youzan/ZanRedisDB/raft/raftpb"
 	"github.com/youzan/ZanRedisDB/transport/rafthttp"
 
@@ -262,7 +263,7 @@ type plan struct {
 func mkPlan(c *vc.Ctx) plan {
 	return plan{
 		nMsgStreams: c.Pick(400, 12000), nV2Streams: c.Pick(800, 24000), nV2Long: c.Pick(8, 300), nEdge: c.Pick(16, 320),
-		capSteps: c.Pick(800, 4000), capRuns: c.Pick(8, 64), corruptShard: 8,
+		capSteps: c.Pick(800, 4000), capRuns: c.Pick(8, 32), corruptShard: 8,
 	}
 }
 
@@ -557,37 +558,47 @@ func runC16(c *vc.Ctx) error {
 	// captured real traffic
 	capStats := map[string]int{}
 	phase.Store("captured raft traffic")
-	c.ParallelFor(pl.capRuns, func(run int) {
+	// The raft package draws election timeouts from a package-global PRNG:
+	// re-seed it per run and run the captures one after the other, so that the
+	// captured sequences are a function of the seed.
+	type capStream struct {
+		s   *Stream
+		run int
+	}
+	var capStreams []capStream
+	for run := 0; run < pl.capRuns; run++ {
+		raft.VerifSeedRand(c.Seed*131 + int64(run))
 		streams, st, probs := captureRun(c.Seed, run, pl.capSteps)
-		mu.Lock()
 		for k, v := range st {
 			capStats[k] += v
 		}
-		mu.Unlock()
 		for _, pr := range probs {
 			report(pr.s, pr.p, "captured")
 		}
 		for _, s := range streams {
-			if len(s.Msgs) == 0 {
-				continue
+			if len(s.Msgs) > 0 {
+				capStreams = append(capStreams, capStream{s, run})
 			}
-			account(s)
-			r := streamRand(c.Seed, 10, run)
-			// the live comparison was done while the cluster ran; here: re-decode and all truncation points of a prefix
-			t := prefixStream(s, c.Pick(12, 60)<<10)
-			p, clause, done, all := checkStream(t, r, true)
-			c.Ev.Eval()
-			mu.Lock()
-			truncPoints += int64(done)
-			if all {
-				truncStreamsAll++
-			} else {
-				truncStreamsSampled++
-			}
-			mu.Unlock()
-			if p != nil {
-				report(t, p, "captured-"+clause)
-			}
+		}
+	}
+	c.ParallelFor(len(capStreams), func(i int) {
+		s, run := capStreams[i].s, capStreams[i].run
+		account(s)
+		r := streamRand(c.Seed, 10, run*1000+i)
+		// the live comparison was done while the cluster ran; here: re-decode and all truncation points of a prefix
+		t := prefixStream(s, c.Pick(12, 60)<<10)
+		p, clause, done, all := checkStream(t, r, true)
+		c.Ev.Eval()
+		mu.Lock()
+		truncPoints += int64(done)
+		if all {
+			truncStreamsAll++
+		} else {
+			truncStreamsSampled++
+		}
+		mu.Unlock()
+		if p != nil {
+			report(t, p, "captured-"+clause)
 		}
 	})
 
